@@ -14,25 +14,38 @@ prop("C19", "fault_enumeration",
      "from {A, same IP other port, other IP same port, both different} x {K, KEM field overwritten by another valid key, other key "
      "with the MAC recomputed from K's shared secret} x {cookie intact, one cookie byte xored (every byte, ciphertext and tag "
      "region), cookie of another exchange: other address+key / same address other key / same key other address} x presented 0..115 s "
-     "or 121..300 s (one or two key rotations) after the ServerHello. For the harness-driven base every altered acknowledgement "
+     "or 121..300 s (one or two key rotations) after the ServerHello x AGE OF THE SERVER when the cookie is minted (just started, or "
+     "130 / 250 / 370 s resp. a drawn instant inside its 1st..6th key period, never within 2 s of a rotation instant), so that "
+     "cookies minted after the first rotation and presented after a later one occur. For the harness-driven base every altered acknowledgement "
      "carries a MAC that is consistent with what it presents, so only the cookie's binding stands between it and acceptance. Oracle: "
      "a ServerAuth datagram leaves the server, or a handshake/session entry appears, ONLY for (A, K, intact cookie, cookie key "
-     "unchanged since minting - compared white-box). Non-trivial = any presentation that differs; distinct by case. (c) Hidden "
+     "unchanged since minting - compared white-box - AND no rotation instant, every 120 s counted from the start of Serve, between "
+     "minting and presentation: a key that is still held although its period is over is no longer the current key; signature "
+     "cookie-accepted:rotation-overdue; within 1 s of a rotation instant only the key comparison is used). Non-trivial = any presentation that differs; distinct by case. (c) Hidden "
      "server with 1, 2 or 3 certificates (GetCertificate/GetCertList closures modelled on hopserver.NewHopServer), optionally with a "
      "live hidden session; ONE probe class per case: junk (17 first bytes x 20 lengths, hidden-request-shaped junk), each / all of "
      "the five valid discoverable messages captured from an honest run against another instance, a ClientAck whose cookie is sealed "
      "under the hidden server's own cookie key, transport/control/unknown-type datagrams with unknown and live session ids, replayed "
      "and altered authentic datagrams of the live session, a real client's request built for another KEM key, a valid request "
      "xored (every field) / truncated / extended in flight, held for 0 s..1 h, answered and then replayed 0 s..1 h later from the "
-     "same or another address, or written by a client whose clock is 1 s..1 year ahead (own bubble). Every datagram that leaves the "
+     "same or another address, or written by a client whose clock is 1 s..1 year ahead (own bubble), or WRITTEN BY THE HARNESS (a copy of "
+     "writePQClientRequestHidden on the real primitives, self-tested against the real server) with a chosen value in the 64-bit "
+     "time stamp field: server clock +/- {0,1,4,5,6,7,3600} s, 0, 1, 2^31, 2^32, 2^62, 2^63-1, 2^63, 2^64-1 and neighbours, server "
+     "clock +/- 2^b for b in 8..63 with offsets -6..+6 (among them 2^63+clock-1, 2^63+clock, 2^63+clock+6), random 64-bit values "
+     "and random high halves riding on the clock, each optionally presented again after 1 s..1 h from the same or another address "
+     "(presentations are aligned to 100 ms past a whole second of the server's clock). Every datagram that leaves the "
      "server's address is attributed to the step before it. Oracle: nothing leaves the server except at most one "
      "ServerResponseHidden, to the source, per valid request that is delivered within HiddenModeTimestampExpiration (5 s) of its "
-     "time stamp; delays >= 6 s and clocks >= 6 s ahead must stay unanswered; the band in between and byte-identical replays inside "
+     "time stamp; delays >= 6 s and clocks >= 6 s ahead must stay unanswered; a chosen stamp is read as the unsigned 64-bit number of "
+     "seconds it is on the wire: at least 6 s behind or at least 6 s ahead of the server's clock at the presentation (first or "
+     "repeated) must stay unanswered, 0..5 s behind may be answered once; the band in between and byte-identical replays inside "
      "the window are labelled and not judged. Each case ends with an honest request from a new address (a dead server would be "
      "trivially silent). Non-trivial = every probe except a fresh valid request; distinct by case.",
      ["ML-KEM, X25519, SHA-3, Kravatte-SANSE and the Cyclist duplex are treated as ideal; alterations are structural",
       "server HandshakeTimeout 5 s, client HSTimeout 2 s, cookie rotation every 2 min, all on the virtual clock",
-      "a key that never rotates is labelled, not judged (the statement speaks about the current key, not about the period)",
+      "the cookie key's period is taken from handshake_spec.md ('K_r is a key that is rotated every N minutes') with N = 2 as in "
+      "Server.Serve: a cookie is 'minted under the current key' only until the next multiple of 120 s of serving time; a server that "
+      "keeps a key beyond its period and still accepts its cookies is reported (cookie-accepted:rotation-overdue)",
       "future-stamped requests less than 6 s ahead and delays between 5 s and 6 s are not judged (clock-skew tolerance / second "
       "granularity are not fixed by the statement)",
       "while the process-killing findings panic:transport.(*Server).readPQClientRequestHidden:slice-bounds (any hidden-typed "
@@ -44,8 +57,10 @@ prop("C19", "fault_enumeration",
       dict(name="stateless", pkg="transport", run="^TestVerifC19Stateless$", shards=dict(quick=8, thorough=16), thorough_scale=40)],
      text="Fault enumeration and random search against a real server on a simulated network with a virtual clock: hello floods with a "
           "white-box footprint of all server tables; one client acknowledgement per case presented from another address, under "
-          "another key, with an altered or foreign cookie, or after cookie-key rotation; one probe class per case against a hidden "
-          "server with the wire log of the server's address as the observation point.",
+          "another key, with an altered or foreign cookie, or after cookie-key rotation (cookies minted in the server's 1st..6th key "
+          "period); one probe class per case against a hidden "
+          "server (among them correctly keyed requests with boundary values of the 64-bit time stamp field and their late replays) "
+          "with the wire log of the server's address as the observation point.",
      note="trusts synctest, vlib/simnet (wire log), the white-box read of Server.handshakes/sessions/cookieKey; the cryptographic "
           "primitives are treated as ideal",
      technique="enumerated presentations / probe classes + rapid random cases on a simulated datagram network (synctest virtual time)",
